@@ -10,6 +10,8 @@
 
 package store
 
+import "github.com/douban/gobeansdb/utils"
+
 // ---------- helpers recognised by the translator ----------
 
 func forall(lo, hi int, p func(i int) bool) bool {
@@ -30,18 +32,255 @@ func exists(lo, hi int, p func(i int) bool) bool {
 	return false
 }
 
+// modifies designators: all(p) = every field of *p, elems(s) = the elements of slice/array/map s
+func all(x interface{}) bool   { return true }
+func elems(x interface{}) bool { return true }
+
 // ---------- C16: hashes ----------
 
-// historical beansdb FNV-1a variant: bytes are sign-extended before the xor
-func specFnv1a(d []byte, n int) uint32 {
-	if n <= 0 {
-		return 0x811c9dc5
+// 16-bit value hash: len*97 + fnv (whole value if <= 1024 bytes, else first and last 512 bytes)
+func specVhash(v []byte) uint16 {
+	l := len(v)
+	h := uint32(l) * 97
+	if l <= 1024 {
+		return uint16(h + utils.SpecFnv1a(v, l))
 	}
-	return (specFnv1a(d, n-1) ^ uint32(int32(int8(d[n-1])))) * 0x01000193
+	h += utils.SpecFnv1a(v[:512], 512)
+	h *= 97
+	h += utils.SpecFnv1a(v[l-512:], 512)
+	return uint16(h)
 }
+
+// little-endian reads
+func le16(b []byte, o int) uint16 { return uint16(b[o]) | uint16(b[o+1])<<8 }
+func le32(b []byte, o int) uint32 {
+	return uint32(b[o]) | uint32(b[o+1])<<8 | uint32(b[o+2])<<16 | uint32(b[o+3])<<24
+}
+func le64(b []byte, o int) uint64 { return uint64(le32(b, o)) | uint64(le32(b, o+4))<<32 }
+
+// MurmurHash3 x86_32, seed 0 (reference algorithm, written independently of the library)
+func specRotl32(x uint32, r uint) uint32 { return x<<r | x>>(32-r) }
+func specMurmurBlocks(d []byte, nblocks int) uint32 {
+	if nblocks <= 0 {
+		return 0 // seed
+	}
+	h := specMurmurBlocks(d, nblocks-1)
+	k := le32(d, 4*(nblocks-1))
+	k *= 0xcc9e2d51
+	k = specRotl32(k, 15)
+	k *= 0x1b873593
+	h ^= k
+	h = specRotl32(h, 13)
+	return h*5 + 0xe6546b64
+}
+func specMurmur3(d []byte) uint32 {
+	n := len(d)
+	nb := n / 4
+	h := specMurmurBlocks(d, nb)
+	var k uint32
+	t := n & 3
+	if t >= 3 {
+		k ^= uint32(d[4*nb+2]) << 16
+	}
+	if t >= 2 {
+		k ^= uint32(d[4*nb+1]) << 8
+	}
+	if t >= 1 {
+		k ^= uint32(d[4*nb])
+		k *= 0xcc9e2d51
+		k = specRotl32(k, 15)
+		k *= 0x1b873593
+		h ^= k
+	}
+	h ^= uint32(n)
+	h ^= h >> 16
+	h *= 0x85ebca6b
+	h ^= h >> 13
+	h *= 0xc2b2ae35
+	h ^= h >> 16
+	return h
+}
+
+// key hash: FNV variant in the high half, murmur3-32 in the low half
+func specKeyHash(key []byte) uint64 {
+	return uint64(utils.SpecFnv1a(key, len(key)))<<32 | uint64(specMurmur3(key))
+}
+
+// CRC-32 (IEEE 802.3, reflected, polynomial 0xEDB88320), bitwise definition
+func specCRCByte(c uint32, b byte) uint32 {
+	c ^= uint32(b)
+	for i := 0; i < 8; i++ {
+		if c&1 != 0 {
+			c = c>>1 ^ 0xEDB88320
+		} else {
+			c >>= 1
+		}
+	}
+	return c
+}
+func specCRCTable(i int) uint32 { return specCRCByte(0, byte(i)) }
+func specCRCFold(c uint32, d []byte, n int) uint32 {
+	if n <= 0 {
+		return c
+	}
+	return specCRCByte(specCRCFold(c, d, n-1), d[n-1])
+}
+
+// lemma: one step of the table-driven C loop, crc32_table[(crc ^ b) & 0xff] ^ (crc >> 8),
+// equals the bitwise definition, given that the table holds specCRCTable (proved entry by
+// entry from the initializer text).
+func lemmaCRCStep(c uint32, b byte) bool {
+	return specCRCByte(c, b) == specCRCTable(int((c^uint32(b))&0xff))^(c>>8)
+}
+
+//@ func lemmaCRCStep
+//@   props C16 C09
+//@   ints bv
+//@   ensures result0
 
 //@ func fnv1a
 //@   props C16
 //@   ints bv
-//@   ensures h == specFnv1a(data, len(data))
-//@   loop 1 invariant h == specFnv1a(data, $index)
+//@   ensures h == utils.SpecFnv1a(data, len(data))
+//@   loop 1 invariant h == utils.SpecFnv1a(data, $index)
+
+//@ func murmur
+//@   props C16
+//@   ints bv
+//@   assumed library github.com/spaolacci/murmur3 (unsafe block reads); bounded differential against specMurmur3
+//@   ensures h == specMurmur3(data)
+
+//@ func getKeyHashDefalut
+//@   props C16
+//@   ints bv
+//@   ensures result0 == specKeyHash(key)
+
+//@ func Getvhash
+//@   props C16 C10
+//@   ints bv
+//@   requires len(value) < 1<<31
+//@   ensures result0 == specVhash(value)
+
+//@ func newCrc32
+//@   props C16 C09
+//@   ints bv
+//@   ensures result0 != nil && result0.crc == 0xffffffff
+
+//@ func (h *crc32) write
+//@   props C16 C09
+//@   ints bv
+//@   assumed cgo call C.crc32_write through unsafe.Pointer; table proved, step lemma proved, loop bounded-checked
+//@   requires len(data) >= 1
+//@   modifies h.crc
+//@   ensures h.crc == specCRCFold(old(h.crc), data, len(data))
+
+//@ func (h *crc32) get
+//@   props C16 C09
+//@   ints bv
+//@   ensures result0 == ^h.crc
+
+// ---------- C01: version arithmetic (from the statement) ----------
+
+func specAbs32(n int32) int32 {
+	if n < 0 {
+		return -n
+	}
+	return n
+}
+
+// an explicit revision is accepted only if larger in absolute value; 0 and negative are always accepted
+func specVersionOk(oldv, ver int32) bool { return ver <= 0 || ver > specAbs32(oldv) }
+
+// auto-increment on set (ver == 0), negated increment on delete (ver < 0), else the explicit revision
+func specVersionVer(oldv, ver int32) int32 {
+	if ver == 0 {
+		return specAbs32(oldv) + 1
+	}
+	if ver < 0 {
+		return -(specAbs32(oldv) + 1)
+	}
+	return ver
+}
+
+//@ func abs
+//@   props C01
+//@   ints bv
+//@   ensures result0 == specAbs32(n)
+
+//@ func (bkt *Bucket) checkAndUpdateVerison
+//@   props C01
+//@   ints bv
+//@   requires oldv > -2147483647 && oldv < 2147483647 && ver > -2147483648
+//@   ensures result1 == specVersionOk(oldv, ver)
+//@   ensures result1 ==> result0 == specVersionVer(oldv, ver)
+
+// ---------- C09: record layout ----------
+
+func specPadded(n uint32) uint32 { return ((n + 255) >> 8) << 8 }
+
+//@ func (rec *Record) Sizes
+//@   props C09
+//@   ints bv
+//@   requires rec.Payload != nil && len(rec.Key) <= 255 && len(rec.Payload.Body) < 1<<31
+//@   ensures result0 == uint32(24+len(rec.Key)+len(rec.Payload.Body))
+//@   ensures result1 == specPadded(result0)
+//@   ensures result1&0xff == 0 && result0 <= result1 && result1-result0 < 256
+
+//@ func (rec *Record) Size
+//@   props C09
+//@   ints bv
+//@   requires rec.Payload != nil && len(rec.Key) <= 255 && len(rec.Payload.Body) < 1<<31
+//@   ensures result0 == specPadded(uint32(24+len(rec.Key)+len(rec.Payload.Body)))
+
+// ---------- C15: routing ----------
+
+func specDigit(kh uint64, i int) int { return int(kh>>uint(4*(15-i))) & 0xf }
+
+func specBucket(kh uint64, depth int) int {
+	if depth <= 0 {
+		return 0
+	}
+	return int(kh >> uint(64-4*depth))
+}
+
+func specDepth(numBucket int) int { // 1 -> 0, 16 -> 1, 256 -> 2
+	if numBucket == 256 {
+		return 2
+	}
+	if numBucket == 16 {
+		return 1
+	}
+	return 0
+}
+
+//@ func ParsePathUint64
+//@   props C15 C08
+//@   ints bv
+//@   requires len(buf) >= 16
+//@   modifies elems(buf)
+//@   ensures len(result0) == len(buf)
+//@   ensures forall(0, 16, func(i int) bool { return result0[i] == specDigit(khash, i) })
+//@   loop 1 unroll
+
+// ---------- C14: orders ----------
+
+// (chunk, offset) lexicographic
+func specPosLess(c1 int, o1 uint32, c2 int, o2 uint32) bool { return c1 < c2 || (c1 == c2 && o1 < o2) }
+
+//@ func (pos *Position) CmpKey
+//@   props C14
+//@   ints bv
+//@   ensures result0 == int64(pos.ChunkID)<<32 + int64(pos.Offset)
+
+// lemma: on 0 <= chunk < 2^31 the comparison key is strictly monotone in (chunk, offset)
+func lemmaCmpKeyOrder(c1 int, o1 uint32, c2 int, o2 uint32) bool {
+	k1 := int64(c1)<<32 + int64(o1)
+	k2 := int64(c2)<<32 + int64(o2)
+	return (k1 < k2) == specPosLess(c1, o1, c2, o2)
+}
+
+//@ func lemmaCmpKeyOrder
+//@   props C14
+//@   ints bv
+//@   requires 0 <= c1 && c1 < 1<<31 && 0 <= c2 && c2 < 1<<31
+//@   ensures result0
